@@ -130,6 +130,26 @@ func (r *run) export(nth int) (*bundle, error) {
 		return &bundle{data: b.Data, keys: b.Keys}, nil
 	case "v2v2":
 		ks := r.src.v2()
+		if c.Via == "acra-keys" {
+			var ids []string
+			if !c.Bulk {
+				for _, k := range r.sel {
+					switch k.Kind {
+					case kshist.StoragePair:
+						ids = append(ids, "client/"+k.ID+"/storage")
+					case kshist.StorageSym:
+						ids = append(ids, "client/"+k.ID+"/symmetric")
+					case kshist.HMAC:
+						ids = append(ids, "client/"+k.ID+"/searchable")
+					case kshist.PoisonPair:
+						ids = append(ids, "poison-record")
+					default:
+						return nil, fmt.Errorf("c18: acra-keys export has no key id for %s", k)
+					}
+				}
+			}
+			return keysExportV2(r.src.mem, c.Bulk, c.Mode == "private", ids)
+		}
 		if c.Via == "backuper" {
 			bk, err := kv2.NewKeyBackuper("", "", ks)
 			if err != nil {
@@ -196,6 +216,9 @@ func (r *run) imp(b *bundle) error {
 		return err
 	case "v2v2":
 		ks := r.tgt.v2()
+		if r.c.Via == "acra-keys" {
+			return keysImportV2(r.tgt.mem, b)
+		}
 		if r.c.Via == "backuper" {
 			bk, err := kv2.NewKeyBackuper("", "", ks)
 			if err != nil {
@@ -366,8 +389,11 @@ func Check(c Case) (vs hx.Vs, res *result) {
 			if c.Path == "v1v1" && (k.Kind == kshist.PoisonSym || k.Kind == kshist.AuditLog) {
 				continue // keystore v1 has no export id for these kinds
 			}
-			if c.Path == "v2v2" && c.Via == "backuper" && k.Kind == kshist.AuditLog {
+			if c.Path == "v2v2" && (c.Via == "backuper" || c.Via == "acra-keys") && k.Kind == kshist.AuditLog {
 				continue // no export id for the audit log key
+			}
+			if c.Path == "v2v2" && c.Via == "acra-keys" && k.Kind == kshist.PoisonSym {
+				continue // the export command has no key id for the symmetric poison key
 			}
 			if !seen[k] {
 				seen[k] = true
